@@ -233,6 +233,12 @@ def _check(prop, tier, seed, replay, t0):
         report['steps']['correspondence'] = corr.merge_stats()
         report['steps']['correspondence']['mismatches'] = corr.n_mismatch
         report['steps']['correspondence']['seconds'] = round(corr.wall, 1)
+        try:
+            from harness import cov
+
+            report['steps']['correspondence']['library_line_coverage'] = cov.report(corr.lines_hit)
+        except Exception as e:  # reporting only
+            report['steps']['correspondence']['library_line_coverage'] = {'error': f'{type(e).__name__}: {e}'}
         if corr.n_mismatch:
             for m in corr.mismatches[:5]:
                 red.append({'kind': 'correspondence', 'what': f"model and implementation disagree on `{m['line'][:200]}`: impl={m['impl']!r} model={m['model']!r}", 'mismatch': m})
